@@ -1,6 +1,6 @@
 use crate::{
     emulator::Emulator,
-    error::IoError,
+    error::{IoError, SnapshotLoadError},
     host::{DataRecorder, Host, LoadableAsset, SeekFrom, SeekableAsset},
     zx::{machine::ZXMachine, video::colors::ZXColor},
     Result,
@@ -35,8 +35,17 @@ where
         return Err(IoError::UnexpectedEof.into());
     }
 
+    // Memory layouts of 48K and 128K snapshots are not interchangeable
+    if is_128k != (emulator.settings.machine == ZXMachine::Sinclair128K) {
+        return Err(SnapshotLoadError::MachineNotSupported.into());
+    }
+
     let mut header = [0u8; SNA_HEADER_SIZE];
     asset.read_exact(&mut header)?;
+
+    if header[25] & SNA_INTERRUPT_MODE_MASK > 2 {
+        return Err(SnapshotLoadError::InvalidSNAFile.into());
+    }
 
     // i-reg
     emulator.cpu.regs.set_i(header[0]);
